@@ -440,6 +440,12 @@ func TestC12Node(t *testing.T) {
 				trace = append(trace, fmt.Sprintf("broadcast(i%d s%d r%d %s v%d)", p.Instance, sender, p.Round, p.Phase, map[bool]int{true: 0, false: 1}[p.Value == values[0]]))
 			case "rebroadcast":
 				in := gpbft.Instant{ID: uint64(rapid.IntRange(0, 2).Draw(t, "instance")), Round: uint64(rapid.SampledFrom([]int{0, 0, 1, 6, 7, 13}).Draw(t, "round")), Phase: gpbft.Phase(rapid.SampledFrom([]int{1, 3, 4}).Draw(t, "phase"))}
+				if len(history) > 0 && rapid.IntRange(0, 3).Draw(t, "rebroadcastearlier") > 0 {
+					// usually the slot of an earlier request (what the rebroadcast timer of a stalled
+					// instance asks for)
+					h := history[rapid.IntRange(0, len(history)-1).Draw(t, "earlierslot")]
+					in = gpbft.Instant{ID: h.p.Instance, Round: h.p.Round, Phase: h.p.Phase}
+				}
 				_ = cur.f3.VerifRequestRebroadcast(in)
 				if restarts > 0 {
 					rebroadcastAfterRestart++
